@@ -125,21 +125,29 @@ namespace rkcommon {
     inline IntrusivePtr<T> &IntrusivePtr<T>::operator=(
         const IntrusivePtr &input)
     {
-      if (input.ptr)
-        input.ptr->refInc();
-      if (ptr)
-        ptr->refDec();
-      ptr = input.ptr;
+      // NOTE: 'input' may live inside the object we are about to release (e.g.
+      //       'cur = cur->next'), so it must not be touched after the refDec()
+      T *const in = input.ptr;
+      if (in)
+        in->refInc();
+      T *const old = ptr;
+      ptr          = in;
+      if (old)
+        old->refDec();
       return *this;
     }
 
     template <typename T>
     inline IntrusivePtr<T> &IntrusivePtr<T>::operator=(IntrusivePtr &&input)
     {
-      if (ptr)
-        ptr->refDec();
-      ptr = input.ptr;
-      input.ptr = nullptr;
+      // NOTE: take the pointer out of 'input' first: 'input' may live inside
+      //       the object we are about to release (e.g. 'cur = std::move(cur->next)')
+      T *const in  = input.ptr;
+      input.ptr    = nullptr;
+      T *const old = ptr;
+      ptr          = in;
+      if (old)
+        old->refDec();
       return *this;
     }
 
